@@ -198,6 +198,7 @@ theorem closure_good (app : App) (hs : Std app) : Closure app Good GoodVal GoodE
 
 /-- every value the program hands back / every exception it raises carries well-formed responses -/
 def GoodProg (p : Prog) : Prop := ProgOK GoodVal GoodExc p
+def GoodPost (post : AfterProg) : Prop := PostOK GoodVal GoodExc post
 
 theorem emit_good (r : Resp) (hr : Good r) (e : Emitted) (h : emit Gen.Reasons.table r = some e) :
     Gen.Reasons.table.lookup e.status = some e.reason ∧ GoodHs e.headers := by
@@ -227,15 +228,16 @@ theorem emit_good (r : Resp) (hr : Good r) (e : Emitted) (h : emit Gen.Reasons.t
     gets an answer, its status is in the reason table with exactly that reason phrase
     (a three-digit code and a non-empty reason) and every header name and value is latin-1. -/
 theorem C01_wellformed (app : App) (hs : Std app) (p : Prog) (hp : GoodProg p)
+    (post : AfterProg) (hpost : GoodPost post)
     (ctor : Option Exc) (hc : ∀ e, ctor = some e → GoodExc e) (route : Route)
-    (t : Trace) (e : Emitted) (h : run app p ctor route = (t, .answered e)) :
+    (t : Trace) (e : Emitted) (h : run app p post ctor route = (t, .answered e)) :
     Gen.Reasons.table.lookup e.status = some e.reason ∧
     100 ≤ e.status ∧ e.status ≤ 999 ∧ e.reason ≠ "" ∧ GoodHs e.headers := by
   unfold run at h
   split at h
   · simp at h
   · rename_i t1 r hr
-    have hg := respond_P (closure_good app hs) hp ctor hc route t1 r hr
+    have hg := respond_P (closure_good app hs) hp post hpost ctor hc route t1 r hr
     rw [hs.1] at h
     split at h
     · simp at h
@@ -337,19 +339,24 @@ theorem ladder_some (app : App) (p : Prog) (t : Trace) (e : Exc) (he : QuietExc 
     (ConnectionError, SystemExit), and request construction does neither, then the server
     always receives an answer: `start_response` is called exactly once. -/
 theorem C01_silent_reason (app : App) (p : Prog) (hp : ProgOK QuietVal QuietExc p)
+    (post : AfterProg) (hpost : PostOK QuietVal QuietExc post)
     (ctor : Option Exc) (hc : ∀ e, ctor = some e → QuietExc e) (route : Route) :
-    ∃ t e, run app p ctor route = (t, .answered e) := by
+    ∃ t e, run app p post ctor route = (t, .answered e) := by
   have C := closure_quiet app
-  have hsome : ∃ t r, respond app p ctor route = (t, some r) := by
-    unfold respond
+  have hpre : ∃ t r, preAfter app p ctor route = (t, some r) := by
+    unfold preAfter
     split
     · exact ⟨_, _, rfl⟩
     · rename_i t0 e hph
       have he := phase1_err C hp ctor hc route t0 e hph
-      obtain ⟨t', r, hl⟩ := ladder_some app p t0 e he
-      rw [hl]; exact ⟨_, _, rfl⟩
+      exact ladder_some app p t0 e he
+  have hsome : ∃ t r, respond app p post ctor route = (t, some r) := by
+    obtain ⟨t0, r0, h0⟩ := hpre
+    unfold respond
+    rw [h0]
+    exact ⟨_, _, rfl⟩
   obtain ⟨t, r, hr⟩ := hsome
-  have hnd : NotDeclined r := respond_P C hp ctor hc route t r hr
+  have hnd : NotDeclined r := respond_P C hp post hpost ctor hc route t r hr
   obtain ⟨e, he⟩ := emit_some app.reasons r hnd
   refine ⟨t, e, ?_⟩
   unfold run
@@ -357,19 +364,21 @@ theorem C01_silent_reason (app : App) (p : Prog) (hp : ProgOK QuietVal QuietExc 
   simp only [he]
 
 /-- the model's outcome space: one answer (exactly one `start_response` call) or silence -/
-theorem C01_total (app : App) (p : Prog) (ctor : Option Exc) (route : Route) :
-    (∃ e, (run app p ctor route).2 = .answered e) ∨ (run app p ctor route).2 = .silent := by
-  cases h : (run app p ctor route).2 with
+theorem C01_total (app : App) (p : Prog) (post : AfterProg) (ctor : Option Exc) (route : Route) :
+    (∃ e, (run app p post ctor route).2 = .answered e) ∨ (run app p post ctor route).2 = .silent := by
+  cases h : (run app p post ctor route).2 with
   | answered e => exact Or.inl ⟨e, rfl⟩
   | silent => exact Or.inr rfl
 
 def C01_full : Prop :=
-  (∀ app, Std app → ∀ p, GoodProg p → ∀ ctor, (∀ e, ctor = some e → GoodExc e) → ∀ route t e,
-      run app p ctor route = (t, .answered e) →
+  (∀ app, Std app → ∀ p, GoodProg p → ∀ post, GoodPost post →
+      ∀ ctor, (∀ e, ctor = some e → GoodExc e) → ∀ route t e,
+      run app p post ctor route = (t, .answered e) →
       Gen.Reasons.table.lookup e.status = some e.reason ∧
       100 ≤ e.status ∧ e.status ≤ 999 ∧ e.reason ≠ "" ∧ GoodHs e.headers) ∧
-  (∀ app p, ProgOK QuietVal QuietExc p → ∀ ctor, (∀ e, ctor = some e → QuietExc e) → ∀ route,
-      ∃ t e, run app p ctor route = (t, .answered e))
+  (∀ app p, ProgOK QuietVal QuietExc p → ∀ post, PostOK QuietVal QuietExc post →
+      ∀ ctor, (∀ e, ctor = some e → QuietExc e) → ∀ route,
+      ∃ t e, run app p post ctor route = (t, .answered e))
 
 theorem C01 : C01_full := ⟨C01_wellformed, C01_silent_reason⟩
 
